@@ -88,7 +88,11 @@ def case_strategy():
             "dup": st.lists(st.integers(0, 19), max_size=3),  # positions to duplicate (index re-used with a new value)
             "dupvals": st.lists(st.binary(min_size=2, max_size=2), min_size=3, max_size=3),
             "big": st.one_of(st.none(), st.none(), st.none(), st.tuples(st.integers(0, 20), st.sampled_from([65535, 65534, 32768, 4096]))),
-            "ua": st.one_of(st.none(), st.none(), st.tuples(st.integers(0, 20), st.integers(0, 60), st.integers(0x41, 0x7A))),
+            "ua": st.one_of(
+                st.none(),
+                st.none(),
+                st.tuples(st.integers(0, 20), st.one_of(st.integers(0, 60), st.sampled_from([127, 128, 129, 255, 256, 257, 511, 1000]), st.integers(0, 700)), st.integers(0x41, 0x7A)),
+            ),
             "end": st.sampled_from(["terminator", "terminator", "eof", "truncated", "padding", "garbage"]),
             "garbage": S.binary(0, 40),
             "truncate": st.integers(1, 9),
